@@ -973,7 +973,9 @@ def handle (d : DState) (line : String) : DState × Option String :=
     | none =>
     match d.unmanaged with
     | some us =>
-      match UDrv.parseAction ws with
+      -- `start uremove d` is `Pool::remove()`: a remove with the pool's configured timeout
+      match (if ws == ["start", "uremove", "d"] then some (U.Action.start (.remove us.cfg.timeout))
+             else UDrv.parseAction ws) with
       | some a =>
         match U.step us a with
         | some s' =>
